@@ -202,6 +202,47 @@ def slice_obs(ety, ename, cap):
     ob = Ob(name, src, [('buf', arr, True), ('scalar', 'usize'), ('scalar', 'usize'), ('scalar', tname)], None, write_post,
             {'kind': 'slice-write', 'elem': tname}, pre=pre)
     ob.handles_abort = True; obs.append(ob)
+    # an index expression that re-assigns the indexed slice while it is evaluated (`w[{ w = t; i }]`): whichever of the two
+    # slice values the access uses, its bounds check and its element address must come from the SAME slice value
+    two = ('%s :: (p: ^mut %s, n: usize, q: ^mut %s, m: usize, i: usize%s)%s { r1 := %s.{ len = n, ptr = p }; s := (^[]%s).(rawptr.(^r1))^; '
+           'r2 := %s.{ len = m, ptr = q }; t := (^[]%s).(rawptr.(^r2))^; %s }')
+    name = 'sfxr_%s' % ename
+    src = ('%s_in :: (s: []%s, t: []%s, i: usize) -> %s { w := s; w[{ w = t; i }] }\n' % (name, tname, tname, tname) +
+           two % (name, arr.src(), arr.src(), '', ' -> ' + tname, raw, tname, raw, tname, '%s_in(s, t, i)' % name))
+
+    def sfx_read_post(ctx, xs):
+        n, m, i = xs; b1, b2 = ctx.bufs
+        goals = [('no access outside the containers', ctx.accesses_inside()), ('containers and guards unchanged', z3.And(frame(ctx, b1, []), frame(ctx, b2, [])))]
+        if ctx.status == 'abort':
+            return goals + [('abort only when the index is out of range for one of the two slice values', z3.Or(z3.UGE(i, n), z3.UGE(i, m)))]
+        alts = []
+        for j in range(cap):
+            alts.append(z3.And(i == j, z3.ULT(i, n), ctx.ret == elem_value(ctx, b1, j * st, ety)))
+            alts.append(z3.And(i == j, z3.ULT(i, m), ctx.ret == elem_value(ctx, b2, j * st, ety)))
+        return goals + [('the result is element i of a slice value whose length is > i', z3.Or(*alts))]
+    ob = Ob(name, src, [('buf', arr, True), ('scalar', 'usize'), ('buf', arr, True), ('scalar', 'usize'), ('scalar', 'usize')], tname, sfx_read_post,
+            {'kind': 'slice-read-index-reassigns-slice', 'elem': tname}, pre=lambda xs: [z3.ULE(xs[0], cap), z3.ULE(xs[1], cap)])
+    ob.handles_abort = True; obs.append(ob)
+    name = 'sfxw_%s' % ename
+    src = ('%s_in :: (s: []%s, t: []%s, i: usize, x: %s) { w := s; w[{ w = t; i }] = x; }\n' % (name, tname, tname, tname) +
+           two % (name, arr.src(), arr.src(), ', x: %s' % tname, '', raw, tname, raw, tname, '%s_in(s, t, i, x);' % name))
+
+    def sfx_write_post(ctx, xs):
+        n, m, i, x = xs; b1, b2 = ctx.bufs
+        goals = [('no access outside the containers', ctx.accesses_inside())]
+        if ctx.status == 'abort':
+            return goals + [('abort only when the index is out of range for one of the two slice values', z3.Or(z3.UGE(i, n), z3.UGE(i, m))),
+                            ('nothing was written before the abort', z3.And(frame(ctx, b1, []), frame(ctx, b2, [])))]
+        alts = []
+        for j in range(cap):
+            alts.append(z3.And(i == j, z3.ULT(i, n), ctx.final_bytes(b1, j * st, es) == x))
+            alts.append(z3.And(i == j, z3.ULT(i, m), ctx.final_bytes(b2, j * st, es) == x))
+            goals.append(('nothing but element i changed', z3.Implies(i == j, z3.And(frame(ctx, b1, [(j * st, es)]), frame(ctx, b2, [(j * st, es)])))))
+        goals.append(('a return means the index is in range of one of the two slice values', z3.Or(z3.ULT(i, n), z3.ULT(i, m))))
+        return goals + [('element i of a slice value whose length is > i holds the written value', z3.Or(*alts))]
+    ob = Ob(name, src, [('buf', arr, True), ('scalar', 'usize'), ('buf', arr, True), ('scalar', 'usize'), ('scalar', 'usize'), ('scalar', tname)], None, sfx_write_post,
+            {'kind': 'slice-write-index-reassigns-slice', 'elem': tname}, pre=lambda xs: [z3.ULE(xs[0], cap), z3.ULE(xs[1], cap)])
+    ob.handles_abort = True; obs.append(ob)
     return obs, decl
 
 
